@@ -286,6 +286,23 @@ def check_relabel(rng, acc):
             acc["counters"].get("relabel-nodes-not-in-time-order", 0) + 1
     for n, t in order_:
         g.add_node(n, time=t, seg_id=seg_ids[n])
+    if rng.random() < 0.45:
+        # the graph of a solution that was annotated earlier: nodes carry track / lineage
+        # ids that describe an OLDER topology (lineage-style ids, ids from before an edge
+        # was pruned, arbitrary ids) - the relabelling follows the graph as passed
+        comps = O.component_partition(times.keys(), edges)
+        style = rng.choice(["lineage", "stale", "random", "partial"])
+        for ci, comp in enumerate(sorted(comps, key=min)):
+            for n in comp:
+                if style == "lineage":
+                    g.nodes[n]["track_id"] = ci + 1
+                elif style == "stale":
+                    g.nodes[n]["track_id"] = 1 + (ci + times[n] // 2) % 3
+                elif style == "random" or rng.random() < 0.6:
+                    g.nodes[n]["track_id"] = rng.randint(1, 4)
+                g.nodes[n]["lineage_id"] = ci + 1
+        acc["counters"]["relabel-graph-carries-old-ids"] = \
+            acc["counters"].get("relabel-graph-carries-old-ids", 0) + 1
     es_ = list(edges)
     rng.shuffle(es_)
     g.add_edges_from(es_)
@@ -364,7 +381,8 @@ def floors(tier):
             "unique-with-empty-frame-before-labels": 300, "relabel-with-division": 200,
             "relabel-with-unused-detections": 300, "unique-multiseg-3d": 100,
             "unique-with-a-frame-without-background": 100,
-            "unique-non-contiguous-input": 1000, "relabel-nodes-not-in-time-order": 1000, "relabel-again-after-rewiring": 500}
+            "unique-non-contiguous-input": 1000, "relabel-nodes-not-in-time-order": 1000, "relabel-again-after-rewiring": 500,
+            "relabel-graph-carries-old-ids": 400}
 
 
 def replay(doc):
@@ -401,6 +419,23 @@ def replay(doc):
             acc["counters"].get("relabel-nodes-not-in-time-order", 0) + 1
     for n, t in order_:
         g.add_node(n, time=t, seg_id=seg_ids[n])
+    if rng.random() < 0.45:
+        # the graph of a solution that was annotated earlier: nodes carry track / lineage
+        # ids that describe an OLDER topology (lineage-style ids, ids from before an edge
+        # was pruned, arbitrary ids) - the relabelling follows the graph as passed
+        comps = O.component_partition(times.keys(), edges)
+        style = rng.choice(["lineage", "stale", "random", "partial"])
+        for ci, comp in enumerate(sorted(comps, key=min)):
+            for n in comp:
+                if style == "lineage":
+                    g.nodes[n]["track_id"] = ci + 1
+                elif style == "stale":
+                    g.nodes[n]["track_id"] = 1 + (ci + times[n] // 2) % 3
+                elif style == "random" or rng.random() < 0.6:
+                    g.nodes[n]["track_id"] = rng.randint(1, 4)
+                g.nodes[n]["lineage_id"] = ci + 1
+        acc["counters"]["relabel-graph-carries-old-ids"] = \
+            acc["counters"].get("relabel-graph-carries-old-ids", 0) + 1
     es_ = list(edges)
     rng.shuffle(es_)
     g.add_edges_from(es_)
